@@ -29,7 +29,7 @@ def build(tier):
     try:
         from props import C16
         have = set(g.name for g in groups)
-        groups += [g for g in C16.build(tier)[0] if g.name in ("svd.compute", "svd.matrix_U", "svd.matrix_V") and g.name not in have]
+        groups += [g for g in C16.build(tier)[0] if g.name in ("svd.cache.coverage", "svd.compute", "svd.matrix_U", "svd.matrix_V", "svd.extraction") and g.name not in have]
     except ExtractionBreak as e:
         groups.append(z3lemma.StaticGroup("svd.extraction", ok=False, detail=str(e), obligation="extraction of PartialSVDSolver", undecided_on_fail=True))
 
